@@ -13,6 +13,8 @@ rsync -a --exclude .git --exclude .work --exclude replays --exclude evidence /ve
 # the seeds were cut against earlier commits of /repo: fall back to patch(1) with fuzz when the context has moved
 ( cd "$W/repo" && git init -q . >/dev/null 2>&1 && { git apply --whitespace=nowarn "$PATCH" 2>/dev/null || patch -p1 -F3 -s --no-backup-if-mismatch < "$PATCH"; } ) || { echo "MUTEST: patch does not apply"; exit 3; }
 export GOFLAGS=-mod=mod GOPROXY=off GOSUMDB=off GOTOOLCHAIN=local
+# every scratch copy has its own path, so the build cache grows by ~0.2 GB per run: keep it below 25 GB
+( flock -n 9 || exit 0; sz=$(du -sm "${GOCACHE:-$HOME/.cache/go-build}" 2>/dev/null | cut -f1); [ "${sz:-0}" -gt 25000 ] && go clean -cache >/dev/null 2>&1 ) 9>/tmp/.mutest-gocache.lock
 ( cd "$W/repo" && go build ./... ) || { echo "MUTEST: patched tree does not compile"; exit 4; }
 rc=0
 for id in "$@"; do
